@@ -18,6 +18,9 @@
 //       set-up valid    => output == output of a FRESH object configured directly with the same configuration (memoised)
 //       set-up invalid  => process_data() reports an error, or the output is the correct one (never silently a stale one)
 //     State = model + hash of every private member that influences future behaviour + last output.
+//     Keys: one per root cause.  A failing history is minimised; a stale result after "set_up; setters; compute" is reported as the
+//     history_independence failure of the preceding set_up if the history without those setters already fails; a history that
+//     contains the setters of an already reported minimal history is re-run without them (a second defect is reported on its own).
 #include "vmc.h"
 #include "stir_small.h"
 #include "stir/scatter/SingleScatterSimulation.h"
